@@ -1,7 +1,65 @@
 import Mutagen.Driver.Util
+import Mutagen.Model.Bundle
 namespace Mutagen.Driver.C46
+open Mutagen.Driver Mutagen.Model.Bundle
 
-/-- Model-side handler for one line of the C46 correspondence stream. -/
-def handle (_line : String) : String := "unimplemented"
+/-!
+Line: `<exe dir name> <state of <exe dir>/bundle> <state of ../libexec/bundle> <goos hex> <goarch hex> <o|t>`
+
+States (concrete layouts made by the harness → abstract `LocState`):
+`A0` directory missing, `A1` directory without bundle, `S` dangling symbolic
+link (all `absent`); `D` a directory at the bundle path (`notFile`); `E` the
+directory itself is a regular file, `L` symbolic-link loop (both `openErr`);
+`F=<archive>` regular file, `K=<archive>` symbolic link to a regular file.
+Archive: `G` (not gzip) or `<e|j|t>=<hexname>/<hexdata>;…` (end: clean EOF,
+junk block, truncated inside the last entry).
+
+Output: `ok <hex data> <octal mode> <out|tmp|tmp.exe>` or `err <kind>`.
+-/
+
+def parseEntries (s : String) : Option (List Entry) :=
+  if s == "" then some [] else
+  (s.splitOn ";").mapM fun e =>
+    match e.splitOn "/" with
+    | [n, d] => do pure { name := ← decHex n, data := ← decHex d }
+    | _ => none
+
+def parseArchive : List String → Option Archive
+  | ["G"] => some { gzipOK := false, entries := [], fin := .eof }
+  | [fin, es] => do
+    let fin ← match fin with
+      | "e" => some ArchEnd.eof | "j" => some ArchEnd.junk | "t" => some ArchEnd.trunc | _ => none
+    pure { gzipOK := true, entries := ← parseEntries es, fin := fin }
+  | _ => none
+
+def parseState (s : String) : Option LocState :=
+  match s.splitOn "=" with
+  | ["A0"] | ["A1"] | ["S"] => some .absent
+  | ["D"] => some .notFile
+  | ["E"] | ["L"] => some .openErr
+  | "F" :: a | "K" :: a => (parseArchive a).map .file
+  | _ => none
+
+def showErr : Err → String
+  | .locate => "locate" | .open => "open" | .notFile => "notfile" | .decompress => "decompress"
+  | .header => "header" | .unsupported => "unsupported" | .copy => "copy"
+
+def octal (n : Nat) : String := String.ofList (Nat.toDigits 8 n)
+
+def handle (line : String) : String :=
+  match fields line with
+  | [dirName, s1, s2, goos, goarch, out] =>
+    match parseState s1, parseState s2, decHex goos, decHex goarch with
+    | some st1, some st2, some goos, some goarch =>
+      let exe : Path := ["w", dirName, "c46"]
+      let fs : Path → LocState := fun p =>
+        if p = ["w", dirName] then st1 else if p = ["w", "libexec"] then st2 else .absent
+      match executableForPlatform fs exe goos goarch with
+      | .error e => "err " ++ showErr e
+      | .ok x =>
+        let cls := if out == "o" then "out" else if x.windowsName then "tmp.exe" else "tmp"
+        s!"ok {encHex x.data} {octal x.mode} {cls}"
+    | _, _, _, _ => "bad-op"
+  | _ => "bad-op"
 
 end Mutagen.Driver.C46
